@@ -188,6 +188,8 @@ def check(rep, F, tier, replay=None):
     totaliter.check(rep, F, "C06")
     from ruleutil import placeholder_full_rule
     placeholder_full_rule(rep, F)
+    from ruleutil import ref_size_pass_rule
+    ref_size_pass_rule(rep, F)
     return rep.finish(
         EXPLANATION,
         ["fees::min_fee / min_script_fee / min_ref_script_fee compute the ledger formulas (C15)", "fake witnesses have the byte size of real ones (fakes.rs constants)", "the signer union being complete per source is C18's matrix"],
